@@ -242,6 +242,8 @@ func translatePredicateWith(pk *packages.Package, d *ast.FuncDecl, declOf func(*
 	segVars := map[types.Object]byte{} // range variable over strings.Split(s, sep)
 	emptinessRejected := false
 	var cond func(e ast.Expr) *formula
+	litVars := map[types.Object]string{} // range variable over a literal list of strings, bound to the current element
+	var boolBody func(list []ast.Stmt) *formula
 	strCall := func(call *ast.CallExpr) (string, bool) {
 		f := callee(pk, call)
 		if f == nil || f.Pkg() == nil || f.Pkg().Path() != "strings" {
@@ -356,10 +358,33 @@ func translatePredicateWith(pk *packages.Package, d *ast.FuncDecl, declOf func(*
 					}
 				}
 			}
+			// a helper predicate with statements: `if c { return true }`, a loop over a literal list of strings with such
+			// an if inside, a final return - unrolled into one formula
+			if declOf != nil && len(x.Args) == 1 && isS(x.Args[0]) && boolBody != nil {
+				if h := callee(pk, x); h != nil && h.Pkg() == pk.Types {
+					if hd := declOf(h); hd != nil && hd.Body != nil && len(hd.Body.List) > 1 && hd.Type.Params != nil && len(hd.Type.Params.List) == 1 && len(hd.Type.Params.List[0].Names) == 1 {
+						po := pk.TypesInfo.Defs[hd.Type.Params.List[0].Names[0]]
+						if !sAlias[po] {
+							sAlias[po] = true
+							f := boolBody(hd.Body.List)
+							delete(sAlias, po)
+							if f != nil {
+								return f
+							}
+						}
+					}
+				}
+			}
 			if name, ok := strCall(x); ok && len(x.Args) == 2 && isS(x.Args[0]) {
 				switch name {
 				case "Contains", "HasPrefix", "HasSuffix", "ContainsAny":
-					if lit, ok := constString(pk, x.Args[1]); ok {
+					lit, ok := constString(pk, x.Args[1])
+					if !ok {
+						if id, isId := ast.Unparen(x.Args[1]).(*ast.Ident); isId {
+							lit, ok = litVars[pk.TypesInfo.Uses[id]]
+						}
+					}
+					if ok {
 						k := map[string]atomKind{"Contains": aContains, "HasPrefix": aPrefix, "HasSuffix": aSuffix, "ContainsAny": aAnyOf}[name]
 						return p.addAtom(&atom{kind: k, lit: lit})
 					}
@@ -371,6 +396,68 @@ func translatePredicateWith(pk *packages.Package, d *ast.FuncDecl, declOf func(*
 			}
 		}
 		return nil
+	}
+	// boolBody: the value of a boolean helper as a formula: OR over its returns of (not returned before & condition & value)
+	boolBody = func(list []ast.Stmt) *formula {
+		result := fFalse()
+		open := fTrue() // no return taken so far
+		retVal := func(st ast.Stmt) *formula {
+			ret, ok := st.(*ast.ReturnStmt)
+			if !ok || len(ret.Results) != 1 {
+				return nil
+			}
+			return cond(ret.Results[0])
+		}
+		var run func(list []ast.Stmt) bool
+		run = func(list []ast.Stmt) bool {
+			for _, st := range list {
+				switch x := st.(type) {
+				case *ast.IfStmt:
+					if x.Init != nil || x.Else != nil || len(x.Body.List) != 1 {
+						return false
+					}
+					cf, rv := cond(x.Cond), retVal(x.Body.List[0])
+					if cf == nil || rv == nil {
+						return false
+					}
+					result = fOr(result, fAnd(fAnd(open, cf), rv))
+					open = fAnd(open, fNot(cf))
+				case *ast.RangeStmt:
+					cl, ok := ast.Unparen(x.X).(*ast.CompositeLit)
+					val, _ := x.Value.(*ast.Ident)
+					if !ok || val == nil || len(cl.Elts) > 64 {
+						return false
+					}
+					vobj := pk.TypesInfo.Defs[val]
+					for _, el := range cl.Elts {
+						lit, isLit := constString(pk, el)
+						if !isLit {
+							return false
+						}
+						litVars[vobj] = lit
+						if !run(x.Body.List) {
+							delete(litVars, vobj)
+							return false
+						}
+					}
+					delete(litVars, vobj)
+				case *ast.ReturnStmt:
+					rv := retVal(x)
+					if rv == nil {
+						return false
+					}
+					result = fOr(result, fAnd(open, rv))
+					open = fFalse()
+				default:
+					return false
+				}
+			}
+			return true
+		}
+		if !run(list) {
+			return nil
+		}
+		return result
 	}
 	isEmptinessTest := func(f *formula) bool {
 		if f.op == 'a' {
